@@ -4184,3 +4184,68 @@ func ruleRangeBoundsAreOpaqueBits(r *Report, rule string) {
 		undecidedf("%s: bounds are never dereferenced", fi.Name)
 	}
 }
+
+// ruleMustNotGetsMatchAllBase (K5): a boolean query with only negative clauses
+// is evaluated as "match-all minus must_not".  In BooleanQuery.Searcher the
+// match-all base must be installed whenever there is a must_not searcher and no
+// positive (must/should) searcher - whatever else the query carries (filter,
+// boosts, ...): the guard of that assignment may only consist of nil tests of
+// the clause searchers.
+func ruleMustNotGetsMatchAllBase(r *Report, rule string) {
+	p := r.P
+	fi := p.MustFunc("search/query.(*BooleanQuery).Searcher")
+	r.Fn(fi)
+	info := fi.Pkg.TypesInfo
+	g := buildCFG(info, fi.Decl.Body)
+	n := 0
+	ast.Inspect(fi.Decl.Body, func(x ast.Node) bool {
+		as, ok := x.(*ast.AssignStmt)
+		if !ok || len(as.Rhs) != 1 {
+			return true
+		}
+		c, ok := as.Rhs[0].(*ast.CallExpr)
+		if !ok {
+			return true
+		}
+		if f := callee(info, c); f == nil || f.Name() != "NewMatchAllSearcher" {
+			return true
+		}
+		// only the negative-only branch: some must_not-like searcher is known to be non-nil here
+		negOnly := false
+		for _, fct := range g.GuardsOf(as) {
+			if e, isEq, isNil := nilTest(info, fct.Expr); isNil && isEq != fct.Truth {
+				if nt := namedOf(info.TypeOf(e)); nt != nil && nt.Obj().Name() == "Searcher" {
+					negOnly = true
+				}
+			}
+		}
+		if !negOnly {
+			return true
+		}
+		n++
+		bad := ""
+		nilTests := 0
+		for _, fct := range g.GuardsOf(as) {
+			// the negation of an earlier early-return condition (`!(a && b && ..)`) is not a condition of this branch
+			if be, isB := ast.Unparen(fct.Expr).(*ast.BinaryExpr); isB && be.Op == token.LAND && !fct.Truth {
+				continue
+			}
+			e, _, isNil := nilTest(info, fct.Expr)
+			if isNil {
+				if nt := namedOf(info.TypeOf(e)); nt != nil && nt.Obj().Name() == "Searcher" {
+					nilTests++
+					continue
+				}
+				if isErrorType(info.TypeOf(e)) {
+					continue
+				}
+			}
+			bad = fct.String()
+		}
+		r.Ob(rule, fi.Name+"/match-all-base-for-negative-only-queries", as.Pos(), bad == "" && nilTests >= 2, "the match-all base searcher of a must_not-only boolean query must be installed on nothing but the nil-ness of the clause searchers; the extra condition `"+bad+"` leaves some negative-only queries (e.g. must_not + filter) without a positive cursor, and they match nothing")
+		return true
+	})
+	if n < 1 {
+		undecidedf("%s: match-all base assignment not found", fi.Name)
+	}
+}
